@@ -1,5 +1,7 @@
 import Karp.Driver.ScenarioJson
+import Karp.Driver.ReqJson
 import Karp.Spec.Admissible
+import Karp.Spec.FilterSpec
 import Karp.Model.Sched
 
 namespace Karp.Driver.C01
@@ -44,10 +46,141 @@ def opExisting (inp impl : Json) : Except String Resp := do
   pure { allowed := some (placedModel == placedImpl), spec := some ok, why := why,
          extra := if ok then none else some (jObj [("signature", jStr sig)]) }
 
+/-! ### `c01.filter`: `filterInstanceTypesByRequirements` / `fits` / `compatible` on one NodeClaim step -/
+
+namespace Filter
+open Karp.Req Karp.Sched Karp.Driver.ReqJson
+
+abbrev KeyExprs := String × List ExprJ
+
+def keyExprs (j : Json) : Except String KeyExprs := do
+  pure (← strF j "key", ← (← arrF j "exprs").mapM parseExpr)
+
+def resList (j : Json) : Except String (List (String × Int)) := do
+  let l ← (← asArr j).mapM (fun e => do pure ((← strF e "name"), (← intF e "q")))
+  -- canonical order (a Go map has none)
+  pure (l.toArray.qsort (fun a b => a.1 < b.1)).toList
+
+def resF (j : Json) (k : String) : Except String (List (String × Int)) := do resList (← fld j k)
+
+/-- `scheduling.NewRequirements()` followed by `Add(NewRequirementWithFlexibility(key, op, minValues, values...))` for
+    every expression in order; `none` when a constructor would panic -/
+def buildReqs (l : List KeyExprs) : Option Reqs :=
+  l.foldlM (fun (R : Reqs) (k, es) => do
+    let rs ← es.mapM (fun e => match Req.new k e.op e.minValues e.values with
+      | .ok r => some r
+      | .error _ => none)
+    pure (R.add rs)) []
+
+def toKExprs (l : List KeyExprs) : List KExpr :=
+  l.flatMap (fun (k, es) => es.map (fun e => ({ key := k, op := e.op, vals := e.values } : KExpr)))
+
+structure OfferingJ where
+  reqs : List KeyExprs
+  available : Bool
+  capOverride : List (String × Int)
+  ovhOverride : Option (List (String × Int))
+
+structure ITJ where
+  name : String
+  reqs : List KeyExprs
+  capacity : List (String × Int)
+  overhead : List (String × Int)
+  offerings : List OfferingJ
+
+structure GroupJ where
+  its : List String
+  overhead : List (String × Int)
+  usage : List (String × List HostPort)
+
+def offeringJ (j : Json) : Except String OfferingJ := do
+  let ovh ← match fldOpt j "ovhOverride" with
+    | none => pure none
+    | some v => do pure (some (← resList v))
+  pure { reqs := ← (← arrF j "reqs").mapM keyExprs, available := ← boolF j "available",
+         capOverride := ← resF j "capOverride", ovhOverride := ovh }
+
+def itJ (j : Json) : Except String ITJ := do
+  pure { name := ← strF j "name", reqs := ← (← arrF j "reqs").mapM keyExprs, capacity := ← resF j "capacity",
+         overhead := ← resF j "overhead", offerings := ← (← arrF j "offerings").mapM offeringJ }
+
+def groupJ (j : Json) : Except String GroupJ := do
+  let usage ← (← arrF j "usage").mapM (fun u => do
+    pure ((← strF u "owner"), (← (← arrF u "ports").mapM ScenarioJson.hostPort)))
+  pure { its := ← strList (← fld j "its"), overhead := ← resF j "overhead", usage := usage }
+
+def toRaw (it : ITJ) : Option ITRaw := do
+  let ofs ← it.offerings.mapM (fun o => do
+    pure ({ reqs := ← buildReqs o.reqs, available := o.available, capOverride := o.capOverride, ovhOverride := o.ovhOverride } : OfferingRaw))
+  pure { name := it.name, reqs := ← buildReqs it.reqs, capacity := it.capacity, overhead := it.overhead, offerings := ofs }
+
+def toSpecIT (it : ITJ) : Karp.Spec.Filter.ITS :=
+  { name := it.name, exprs := toKExprs it.reqs, capacity := it.capacity, overhead := it.overhead,
+    offerings := it.offerings.map (fun o => { exprs := toKExprs o.reqs, available := o.available,
+                                              capOverride := o.capOverride, ovhOverride := o.ovhOverride }) }
+
+def jFlags (f : FilterFlags) (mv : Bool) : Json :=
+  jObj [("minValuesErr", jBool mv), ("requirementsMet", jBool f.requirementsMet), ("fits", jBool f.fits), ("hasOffering", jBool f.hasOffering),
+        ("requirementsAndFits", jBool f.requirementsAndFits), ("requirementsAndOffering", jBool f.requirementsAndOffering),
+        ("fitsAndOffering", jBool f.fitsAndOffering)]
+
+def sortStrings (l : List String) : List String := (l.toArray.qsort (· < ·)).toList
+
+end Filter
+
+/-- `c01.filter`: model = `filterResult` (+ the `(compatible, fits, hasOffering)` triple of every member of every daemon
+    group) on instance types grouped by `allocGroups`; spec = feasibility of every instance type the REAL function kept. -/
+def opFilter (inp impl : Json) : Except String Resp := do
+  let its ← (← arrF inp "its").mapM Filter.itJ
+  let eligible ← strList (← fld inp "eligible")
+  let reqsJ ← (← arrF inp "reqs").mapM Filter.keyExprs
+  let pod ← fld inp "pod"
+  let podKey ← strF pod "name"
+  let podPorts ← (← arrF pod "ports").mapM ScenarioJson.hostPort
+  let groups ← (← arrF inp "groups").mapM Filter.groupJ
+  let total ← Filter.resF inp "total"
+  let relax ← boolF inp "relax"
+  if (fldOpt impl "panic").isSome then
+    return { allowed := some false, spec := some false, why := "filterInstanceTypesByRequirements panicked" }
+  -- spec on what the implementation kept
+  let names ← strList (← fld impl "names")
+  let allExprs : List (List Karp.Driver.ReqJson.ExprJ) :=
+    reqsJ.map (·.2) ++ its.flatMap (fun it => it.reqs.map (·.2) ++ it.offerings.flatMap (fun o => o.reqs.map (·.2)))
+  let cands := Karp.Driver.ReqJson.candidates allExprs []
+  let sinp : Karp.Spec.Filter.Input :=
+    { its := its.map Filter.toSpecIT, eligible := eligible, reqs := Filter.toKExprs reqsJ, podKey := podKey, podPorts := podPorts,
+      groups := groups.map (fun g => { its := g.its, overhead := g.overhead, usage := g.usage }), total := total }
+  let v := Karp.Spec.Filter.allSurvivorsOK sinp cands names
+  -- model
+  let wk := Karp.Gen.Labels.wellKnownLabels
+  let model : Option Json := do
+    let raws ← its.mapM Filter.toRaw
+    let R ← Filter.buildReqs reqsJ
+    let options := (raws.filter (fun r => eligible.contains r.name)).map Karp.Sched.ITRaw.toITM
+    let all := raws.map Karp.Sched.ITRaw.toITM
+    let mgroups : List Karp.Sched.Group := groups.map (fun g => { its := g.its, overhead := g.overhead, usage := g.usage.map (fun (o, ps) => (o, Karp.Sched.hostPortsOf ps)) })
+    let out := Karp.Sched.filterResult options mgroups R podKey (Karp.Sched.hostPortsOf podPorts) total wk relax
+    let triples := mgroups.map (fun g => jArr (g.its.filterMap (fun n =>
+      (all.find? (fun it => it.name == n)).map (fun it =>
+        let c := Karp.Sched.criteria R total wk (g, it)
+        jObj [("it", jStr n), ("c", jBool c.1), ("f", jBool c.2.1), ("o", jBool c.2.2)]))))
+    let unsat := (out.unsat.toArray.qsort (fun a b => a.1 < b.1)).toList.map (fun (k, n) => jObj [("key", jStr k), ("n", jNat n)])
+    pure (jObj [("names", jArr ((Filter.sortStrings (out.remaining.map (·.name))).map jStr)),
+                ("err", jBool out.err.isSome),
+                ("unsat", jArr unsat),
+                ("flags", match out.err with | some (f, mv) => Filter.jFlags f mv | none => Json.null),
+                ("triples", jArr triples)])
+  match model with
+  | none => pure { spec := some v.ok, why := "the model says a requirement constructor panics on this input (not generated)", allowed := some false }
+  | some m =>
+    pure { model := some m, spec := some v.ok, why := v.why,
+           extra := if v.ok then none else some (jObj [("signature", jStr v.signature)]) }
+
 def handle : Handler := fun op inp impl =>
   match op with
   | "c01.existing" => opExisting inp impl
   | "c01.pass" => opPass inp impl
+  | "c01.filter" => opFilter inp impl
   | _ => .error s!"unknown op {op}"
 
 end Karp.Driver.C01
